@@ -59,7 +59,7 @@ def declarations(parser):
 def mutate(rng, text, alpha):
     if not text:
         return rng.choice(alpha)
-    k = rng.choice(('truncate', 'truncate', 'flip', 'flip', 'insert', 'foreign', 'delete', 'dupspan', 'paren', 'swapvar', 'pad'))
+    k = rng.choice(('truncate', 'truncate', 'flip', 'flip', 'insert', 'foreign', 'delete', 'dupspan', 'paren', 'swapvar', 'pad', 'space', 'digits'))
     i = rng.randrange(len(text))
     if k == 'truncate':
         return text[:i]
@@ -82,6 +82,10 @@ def mutate(rng, text, alpha):
             return text + 'x'
         p = rng.choice(vs)
         return text[:p] + rng.choice('xyzv') + text[p + 1:]
+    if k == 'space':
+        return text[:i] + ' ' * rng.randrange(1, 3) + text[i:]
+    if k == 'digits':
+        return text[:i + 1] + ''.join(rng.choice('0123456789') for _ in range(rng.choice((1, 2, 3, 12)))) + text[i + 1:]
     return ' ' * rng.randrange(1, 3) + text + ' ' * rng.randrange(0, 3)
 
 def gen_inputs(rng, cfg, n):
